@@ -21,7 +21,7 @@ Q2Addrs == {None, 0, 8, 12}
 Q2Sizes == {None}
 Q2Aligns == {None, 16}
 Q2Palette == {"u8", "u16", "u32", "u64", "u128", "i8", "i16", "i32", "i64", "i128", "f32", "f64", "bool",
-              "cptr", "pvoid", "arr8x3", "arr16x2", "arr32x2", "arr32x0", "unk2", "N", "E", "X", "S", "Z"}
+              "cptr", "pvoid", "arr8x3", "arr16x2", "arr32x2", "arr32x0", "unk2", "N", "E", "X", "S", "Z", "arrNx2"}
 
 T1Palette == {"u8", "u16", "u32", "u64", "cptr", "arr8x3"}
 T1Sizes == {None, 16}
